@@ -85,7 +85,7 @@ func runC05(c *Ctx) {
 	root := NewRng(c.Seed).Fork(5)
 	parallel(nWS, 14, func(i int) {
 		r := root.Fork(uint64(i))
-		sw := GenScopeWS(r, ScopeCfg{JoinPct: -1, GluePct: -1})
+		sw := GenScopeWS(r, ScopeCfg{JoinPct: -1, GluePct: -1, Zoo: r.Fork(0x7a6f6f).Chance(1, 3)})
 		if r.Fork(0x726f6f74).Chance(1, 8) {
 			sw.Reroot([]string{"rootA", "rootB"}) // the files are spread over two workspace folders next to each other
 			c.Count("multi_root_workspaces", 1)
